@@ -527,14 +527,16 @@ package catalog
 // exactly the tags named by the directive, in order; an undeclared name is rejected
 //@ func (*Catalog).tagsFromTagsDirective
 //@   tag C19 C01 C11
-//@   requires c != nil && c.Tags != nil && c.Tags.mx == 0 && DirWF(d)
+//@   requires c != nil && c.Tags != nil && c.Tags.mx == 0 && DirWF(d) && TagsNamed(c.Tags)
 //@   modifies c.Tags.mx
 //@   ensures c.Tags.mx == 0
 //@   ensures [C19] ret1 == nil ==> len(ret0) == len(d.unnamedParameters) && len(ret0) >= 1
 //@        && (forall k :: 0 <= k && k < len(ret0) ==> has(c.Tags.data, d.unnamedParameters[k]) && ret0[k] == c.Tags.data[d.unnamedParameters[k]])
 //@   ensures [C11] (exists k :: 0 <= k && k < len(d.unnamedParameters) && !has(c.Tags.data, d.unnamedParameters[k])) ==> ret1 != nil
+//@   ensures [C11] (exists k :: 0 <= k && k < len(d.unnamedParameters) && has(c.Tags.data, d.unnamedParameters[k]) && c.Tags.data[d.unnamedParameters[k]] != nil && c.Tags.data[d.unnamedParameters[k]].automatic) ==> ret1 != nil
 //@   loop 1 invariant 0 - 1 <= rangeindex && rangeindex <= rangelen - 1 && rangelen == len(d.unnamedParameters) && len(tt) == rangeindex + 1 && c.Tags.mx == 0 && rangelen >= 1
 //@   loop 1 invariant forall k :: 0 <= k && k <= rangeindex ==> has(c.Tags.data, d.unnamedParameters[k]) && tt[k] == c.Tags.data[d.unnamedParameters[k]]
+//@   loop 1 invariant forall k :: 0 <= k && k <= rangeindex ==> !(c.Tags.data[d.unnamedParameters[k]] != nil && c.Tags.data[d.unnamedParameters[k]].automatic)
 //@   loop 1 decreases rangelen - rangeindex
 //@   loop 1 frame nothing
 
